@@ -602,7 +602,14 @@ def run(ck):
         a = shift_block(t['PostSelect']['body'])
         for kind in ('Measure',):
             b = shift_block(t[kind]['body'])
-            ck.ob3('R-SIB-measure', '%s/index-shift' % kind, None if (len(a) < 3 and len(b) < 3) else (a == b and len(a) >= 3 and any('> SLOT' in x for x in a)), ck.site('gate::Gate::add_to_graph'),
+            try:
+                okv, detail, nev = slot_shift_semantics(facts, kind)      # decided by evaluating the arm on concrete qubit -> slot maps (as in C02)
+                ck.ob('R-SIB-measure', '%s/index-shift' % kind, okv, ck.site('gate::Gate::add_to_graph'), detail, sample={'evaluations': nev})
+                continue
+            except (minirust.NoEval, minirust.Proceed, TypeError, KeyError, IndexError, AttributeError, ValueError) as ex:
+                ck.note('%s: the slot bookkeeping is not evaluable (%s); sibling comparison used, positive matches only' % (kind, ex))
+            same = (a == b and len(a) >= 3 and any('> SLOT' in x for x in a))
+            ck.ob3('R-SIB-measure', '%s/index-shift' % kind, True if same else None, ck.site('gate::Gate::add_to_graph'),
                   'the %s arm must remove the output slot, forget the qubit and shift every map entry above the removed SLOT down by one, exactly as PostSelect does: %s vs %s' % (kind, b, a))
     # positive controls
     fx = fixture()
